@@ -80,6 +80,19 @@ CHECKS = {
         note='Bounded source length (4-6 quick, 5-8 thorough); quoted strings spanning lines are not modelled; D2 was '
              'found and repaired (fix: 4902902); D3 is an open known finding judged by Lexer.tla with Deviations={"D3"}.',
         design='5/C09'),
+    'C06': dict(
+        engine='spec/ExprGrammar.tla, spec/ExprGrammarExport.tla',
+        technique='TLC enumeration of every token string (with line breaks) and of every tree in six layouts against a '
+                  'recursive-descent transcription of the documented grammar with lazy evaluation + replay in six host '
+                  'contexts through the real CLI, laziness observed with logging run-primitives',
+        text='TLC checks RoundTrip (every layout of every tree parses back: precedence, n-ary folding, parentheses, '
+             'permitted line breaks), LeftToRight and LenientExtendsStrict, and exports the denotation of every token '
+             'string up to the bound, well-formed or not; each is executed as integer, file, text, files and line matcher '
+             '(also in simple contexts and inside parentheses) and must give PASS / FAIL / SYNTAX_ERROR as denoted; the '
+             'order and laziness of evaluation is compared with the model\'s evaluation log.',
+        note='Bounded string length / tree size; a line break before an infix operator is treated as unspecified '
+             '(joined value or SYNTAX_ERROR accepted); transformer composition is checked under C05.',
+        design='5/C06'),
 }
 
 NOT_YET = 'check not built yet (planned in DESIGN.md section 5); no claim is made'
